@@ -472,3 +472,43 @@ def history_cases(rng, tier):
             ops.insert(rng.randrange(0, len(ops) + 1), "dg 3 %d" % rng.choice([2, 4]))
         out.append("synthetic %s | %s" % (base, " | ".join(ops)))
     return out
+
+
+# ---------------------------------------------------------------------------
+# XML-sourced cache objects: every cache type string x cache_type value (0, 1, 2, missing) x depth (matching or not).
+# The incoherent documents must be rejected at load; whatever loads goes through the per-object clauses.
+CACHE_TYPE_STRINGS = [("L1Cache", 1), ("L2Cache", 2), ("L3Cache", 3), ("L4Cache", 4), ("L5Cache", 5), ("L1iCache", 1), ("L2iCache", 2), ("L3iCache", 3)]
+
+XML_CACHE_DOC = """<?xml version="1.0" encoding="UTF-8"?>
+<!DOCTYPE topology SYSTEM "hwloc2.dtd">
+<topology version="3.0">
+  <object type="Machine" os_index="0" cpuset="0x00000003" complete_cpuset="0x00000003" allowed_cpuset="0x00000003" nodeset="0x00000001" complete_nodeset="0x00000001" allowed_nodeset="0x00000001" gp_index="1" id="obj1">
+    <object type="NUMANode" os_index="0" cpuset="0x00000003" complete_cpuset="0x00000003" nodeset="0x00000001" complete_nodeset="0x00000001" gp_index="2" id="obj2" local_memory="1048576"/>
+    <object type="%s" cpuset="0x00000001" complete_cpuset="0x00000001" nodeset="0x00000001" complete_nodeset="0x00000001" gp_index="3" id="obj3" cache_size="32768" depth="%d" cache_linesize="64" cache_associativity="8"%s>
+      <object type="PU" os_index="0" cpuset="0x00000001" complete_cpuset="0x00000001" nodeset="0x00000001" complete_nodeset="0x00000001" gp_index="4" id="obj4"/>
+    </object>
+    <object type="%s" cpuset="0x00000002" complete_cpuset="0x00000002" nodeset="0x00000001" complete_nodeset="0x00000001" gp_index="5" id="obj5" cache_size="32768" depth="%d" cache_linesize="64" cache_associativity="8"%s>
+      <object type="PU" os_index="1" cpuset="0x00000002" complete_cpuset="0x00000002" nodeset="0x00000001" complete_nodeset="0x00000001" gp_index="6" id="obj6"/>
+    </object>
+  </object>
+</topology>
+"""
+
+
+def xml_cache_docs(outdir):
+    """writes the documents (deterministic names) and returns their paths.  First cache object: the combination under
+    test; second one: the coherent object of the same type string (so a level can hold both)."""
+    import os
+    os.makedirs(outdir, exist_ok=True)
+    paths = []
+    for ts, d in CACHE_TYPE_STRINGS:
+        good_ct = 2 if "i" in ts else 0
+        for ct in (0, 1, 2, None):
+            for depth in (d, d + 1, 0):
+                attr = "" if ct is None else ' cache_type="%d"' % ct
+                p = os.path.join(outdir, "cache-%s-ct%s-d%d.xml" % (ts, "none" if ct is None else ct, depth))
+                txt = XML_CACHE_DOC % (ts, depth, attr, ts, d, ' cache_type="%d"' % good_ct)
+                if not os.path.exists(p) or open(p).read() != txt:
+                    open(p, "w").write(txt)
+                paths.append(p)
+    return paths
